@@ -23,6 +23,7 @@ def correspondence(ctx):
                 "cells on the real code: for small lists EVERY tuple (capitalisation choice, word indices, separator index vectors) is run, each index "
                 "realised by a randomly chosen raw word of its fibre. Non-trivial = every distinct cell tuple; wlgen cases with Length >= 2.")
     ctx.wl_results = wlgen.run_wlgen_family(ctx, wlgen.gen_cases(ctx, 250 if ctx.tier == "quick" else 3000))
+    ctx.wl_big = wlgen.run_big_lists(ctx)
     for c, a, b in ctx.wl_results:
         if c["length"] >= 2:
             ctx.nontrivial.add(str(c["meta"]) + str(len(c["words"])))
@@ -98,14 +99,31 @@ def run_cells(ctx, cells):
 def reference_check(ctx):
     """every wordlist password of the run against an independent restatement of the documented generation on the same tape:
     each word index, capitalised position and separator is a fresh draw, in the documented order"""
-    for c, a, b in getattr(ctx, "wl_results", []):
-        if a is None or isinstance(c["list"], str):
+    for c, a, b in getattr(ctx, "wl_results", []) + getattr(ctx, "wl_big", []):
+        if a is None or (isinstance(c["list"], str) and not c["list"].startswith("synth ")):
             continue
         order, titles, rest = wlgen.parse_pre(a)
         d = chargen.parse_password(rest)
         if d is None or d["outcome"] != "ok" or not order or order == "0":
             continue
         words = [core.unhx(x) for x in order.split(",")[1:]]
+        line = wlgen.wlgen_line(c["list"], c["length"], c["sep"], c["cap"], c["budget"], c["words"], shadow=c.get("shadow"))
+        # the word indices 0..size-1 (each realised by a one-word generation on a scripted tape) must select size DIFFERENT
+        # words, and for a synthetic list exactly its words: otherwise the words are not equally likely
+        if len(set(words)) != len(words):
+            seen, dup_i = {}, None
+            for i, w in enumerate(words):
+                if w in seen:
+                    dup_i = (seen[w], i)
+                    break
+                seen[w] = i
+            ctx.violations.append({"case": c["meta"], "line": line, "observed": a[:200], "finding_key": "C04-index-injective",
+                                   "what": "word indices %d and %d select the same word %r (size %d): the words are not equally likely" % (dup_i[0], dup_i[1], words[dup_i[0]], len(words))})
+            return
+        if isinstance(c["list"], str) and c["list"].startswith("synth ") and set(words) != set(w.encode() for w in wlgen.synth_list(int(c["list"].split()[1]))):
+            ctx.violations.append({"case": c["meta"], "line": line, "observed": a[:200], "finding_key": "C04-index-injective",
+                                   "what": "the words selected by the indices 0..size-1 are not the words of the list"})
+            return
         want = wlgen.py_wl_generate(words, title_map(titles), c["length"], c["sep"], c["cap"], c["budget"], c["words"])
         if want is None:
             ctx.count("reference_undecided")
